@@ -168,7 +168,7 @@ def finishG (c : Case) : List String :=
   let cfg := cfgG c
   let sched := (c.sched.map tidG) ++ Fine.roundRobin (c.tail / 2)
   let (st, tr) := Fine.runTrace cfg c.ops sched
-  let fired := (List.range st.ioc).any cfg.fault
+  let fired := Fine.firedB cfg st
   let status := statusG cfg st
   let mObs := s!"{status} warn={st.warn} wdead={if st.wpc = .dead then 1 else 0} fired={if fired then 1 else 0}"
   let mTr := joinSp tr
